@@ -54,8 +54,8 @@ def run_one(p, flags_list, tmp):
             attempt('glob.globfilter', fl, lambda: G.globfilter(nm, variant, flags=fl & G.FLAG_MASK))
             attempt('fnmatch.is_magic', fl, lambda: F.is_magic(variant, flags=fl & F.FLAG_MASK))
             attempt('glob.is_magic', fl, lambda: G.is_magic(variant, flags=fl & G.FLAG_MASK))
-            attempt('glob.escape', fl, lambda: (G.escape(variant), G.escape(variant, unix=False), G.escape(variant, unix=True), F.escape(variant)))
-            attempt('glob.compile', fl, lambda: G.compile(variant, flags=fl & G.FLAG_MASK).match(nm[0]))
+            if fl is flags_list[0]:
+                attempt('glob.escape', fl, lambda: (G.escape(variant), G.escape(variant, unix=False), G.escape(variant, unix=True), F.escape(variant)))      # escape takes no flags
             attempt('WcSplit.split', fl, lambda: list(W.WcSplit(variant, fl).split()))
             attempt('_GlobSplit.split', fl, lambda: G._GlobSplit(variant, G._flag_transform(fl & G.FLAG_MASK)).split())
         attempt('glob.glob', fl, lambda: G.glob(p, flags=fl & G.FLAG_MASK, root_dir=tmp))
